@@ -154,6 +154,10 @@ func (w *World) accepted(ls *lisState, nfd int, sa syscall.Sockaddr, now time.Du
 	t := codec.BuildTCP(ls.Addr.Addr(), c.remote.Addr(), seg)
 	b := codec.BuildIPv4(ls.Addr.Addr(), c.remote.Addr(), codec.ProtoTCP, 64, codec.V4Opts{Flags: 2}, t)
 	c.synack = w.inject(b, now+time.Duration(ls.L.SynAckDelayUs)*time.Microsecond, PktOrigin{Handshake: true, Form: "handshake"})
+	if ls.L.SynAckDupUs > 0 {
+		w.inject(append([]byte(nil), b...), now+time.Duration(ls.L.SynAckDelayUs+ls.L.SynAckDupUs)*time.Microsecond, PktOrigin{Handshake: true, Form: "handshake", Copy: 1})
+		w.stat("fault.synack-retransmitted")
+	}
 }
 
 // sweepListeners accepts whatever is left in the accept queues at the end of a run: connections
